@@ -832,11 +832,19 @@ def np_pad(I, a, pad_width, mode='constant', **kw):
     Bm = _B()
     if mode != 'constant':
         raise Unsupported('pad mode')
-    pw = [tuple(I.iterate(p)) for p in I.iterate(pad_width)] if not is_num(pad_width) else None
-    if pw is None or (pw and not isinstance(pw[0], tuple)):
-        raise Unsupported('pad width form')
-    if len(pw) == 2 and len(a.shape) == 1 and all(is_num(x) for x in I.iterate(pad_width)):
-        pw = [tuple(I.iterate(pad_width))]
+    r = hook(I, a, 'pad', pad_width)
+    if r is not MISSING:
+        return r
+    if not isinstance(a, Arr):
+        a = np_array(I, a)
+    if is_num(pad_width):
+        pw = [(pad_width, pad_width)] * len(a.shape)
+    else:
+        items = I.iterate(pad_width)
+        if len(items) == 2 and all(is_num(x) for x in items):
+            pw = [tuple(items)] * len(a.shape)
+        else:
+            pw = [tuple(I.iterate(p)) for p in items]
     if len(pw) != len(a.shape):
         I.throw('ValueError', 'pad_width rank mismatch')
     for (b, e) in pw:
